@@ -913,6 +913,7 @@ class PathResult:
         self.proved: List[str] = []
         self.failed: List[Failure] = []
         self.witness: Optional[dict] = None
+        self.extra_witnesses: List[dict] = []
         self.observations: List[tuple] = []
         self.goals: set = set()
         self.taken: List[Any] = []
@@ -958,6 +959,7 @@ def run_path(fn: Callable[[Any], None], make_inputs: Callable[[Ctx], Any], prefi
             r, m = c.model_for()
             if r == "sat":
                 res.witness = inputs.model_inputs(m)
+                res.extra_witnesses = inputs.diverse_inputs(5, seed=len(c.taken))
         except Exception:
             pass
     except Inconclusive as e:
@@ -974,7 +976,7 @@ def run_path(fn: Callable[[Any], None], make_inputs: Callable[[Ctx], Any], prefi
     return res, c
 
 
-def explore(fn, make_inputs, max_paths: int = 100000, witness_policy=None, stop_after_failures: int = 24):
+def explore(fn, make_inputs, max_paths: int = 100000, witness_policy=None, stop_after_failures: int = 24, time_budget: float = 0.0):
     """Depth-first exploration of all paths of a harness.  Once `stop_after_failures`
     paths have produced counterexample candidates the instance stops early: a violation
     is already in hand and enumerating every further failing path adds nothing."""
@@ -982,8 +984,15 @@ def explore(fn, make_inputs, max_paths: int = 100000, witness_policy=None, stop_
     results: List[PathResult] = []
     stats = Stats()
     nfail = 0
+    t_start = time.time()
     while work:
         if nfail >= stop_after_failures:
+            break
+        if time_budget and time.time() - t_start > time_budget:
+            r = PathResult()
+            r.status = "inconclusive"
+            r.detail = f"instance time budget of {time_budget:.0f}s exhausted after {len(results)} paths ({len(work)} pending)"
+            results.append(r)
             break
         prefix = work.pop()
         ww = True if witness_policy is None else witness_policy(len(results))
